@@ -117,6 +117,9 @@ pub fn preseal_melmint<C: ContentAddrStore>(state: UnsealedState<C>) -> Unsealed
 /// The pool named by a request's data. Only the canonical spelling of a pool's name (the one `PoolKey::to_bytes` produces) is recognised: `PoolKey::from_bytes` also accepts a long form with the two denominations in either order, which addresses the same pool entry with its sides swapped (or, with equal sides, no pool at all).
 fn named_pool_key(data: &[u8]) -> Option<PoolKey> {
     let key = PoolKey::from_bytes(data)?;
+    // `NewCustom` is the placeholder an output carries until the hash of its transaction is known, not a denomination: the
+    // empty string parses as (NewCustom, Mel), a "pool" whose left side would be every transaction's own new token at once.
+    (key.left() != Denom::NewCustom && key.right() != Denom::NewCustom).then_some(())?;
     (key.left().to_bytes() < key.right().to_bytes() && key.to_bytes() == data).then_some(key)
 }
 
